@@ -59,6 +59,10 @@ type Fault struct {
 	// block is about to record (learnt from a shadow processor that processed the block first). The unchanged code answers
 	// not-found; what matters is that the same questions are answered correctly once the block is committed.
 	Read bool `json:"read,omitempty"`
+	// Hide: the node table of the exit tree is unavailable while this block is attempted (renamed away and back): every READ
+	// of it fails as well (the cache rebuild of the append-only tree walks it), not only the inserts. Only used on blocks with
+	// at least one deposit (a block without deposits does not touch the table and would succeed).
+	Hide bool `json:"hide,omitempty"`
 }
 
 type Op struct {
@@ -695,11 +699,20 @@ func runOps(dir string, name string, ops []Op, proofs string, maxDC int64) (res 
 				r.open()
 				break
 			}
-			if op.Fault != nil {
+			hide := op.Fault != nil && op.Fault.Hide
+			if hide {
+				if _, e := bridgesync.VerifDB(r.s).Exec(`ALTER TABLE rht RENAME TO rht_verif_hidden`); e != nil {
+					panic(e)
+				}
+			} else if op.Fault != nil {
 				installFault(bridgesync.VerifDB(r.s), op.Fault)
 			}
 			err := bridgesync.VerifProcessBlock(r.ctx, r.s, blk)
-			if op.Fault != nil {
+			if hide {
+				if _, e := bridgesync.VerifDB(r.s).Exec(`ALTER TABLE rht_verif_hidden RENAME TO rht`); e != nil {
+					panic(e)
+				}
+			} else if op.Fault != nil {
 				removeFault(bridgesync.VerifDB(r.s))
 			}
 			if err == nil {
